@@ -42,7 +42,9 @@ class World:
         self.q = {1: [], 2: []}          # q[e] = messages in flight TO e (raw bytes)
         self.ev = []
         self.ops = []
-        self.fired = []                  # filled by Deferred callbacks during the current call
+        self.stack = []                  # events of the calls in progress (delivery, nested request)
+        self.follow = None
+        self.orphan = {"fired": []}
         self.nreq = 0
         self.dfr = {}                    # id(Deferred) -> request id (state key only)
         self.pending = set()
@@ -112,44 +114,56 @@ class World:
             st.append(row)
         self.ev.append({"e": "quiet", "st": st})
 
-    def request(self, p, k, o):
-        self.ops.append(["req", p, k, o])
+    def _fire(self, rid, val):
+        """A request Deferred fired (callback attached by the driver).  If it fired inside a delivery and the
+        driver planned a follow-up for this delivery, the callback issues that request synchronously."""
+        (self.stack[-1] if self.stack else self.orphan)["fired"].append([rid, val])
+        self.pending.discard(rid)
+        f = self.follow
+        if f is not None and len(self.stack) == 1 and self.stack[0]["e"] == "recv":
+            self.follow = None
+            self.request(f[0], f[1][0], f[1][1], re=True)
+
+    def request(self, p, k, o, re=False):
+        if not re:
+            self.ops.append(["req", p, k, o])
+        else:
+            # what the handler wrote before it fired the Deferred belongs to the delivery event
+            self.stack[-1]["sent"] += self._collect(p)
         self.nreq += 1
         rid = self.nreq
-        del self.fired[:]
-        exc = ""
+        ev = {"e": "req", "p": p, "k": k, "o": o, "id": rid, "sent": [], "fired": [], "exc": "", "re": re}
+        self.ev.append(ev)
+        self.stack.append(ev)
         try:
             d = getattr(self.ep[p], k)(bytes([self.code[o - 1]]))
             self.pending.add(rid)
             self.dfr[id(d)] = (rid, d)
-
-            def ok(r, rid=rid):
-                self.fired.append([rid, str(r)])
-                self.pending.discard(rid)
-
-            def err(f, rid=rid):
-                self.fired.append([rid, f.type.__name__])
-                self.pending.discard(rid)
-
-            d.addCallbacks(ok, err)
+            d.addCallbacks(lambda r, rid=rid: self._fire(rid, str(r)), lambda f, rid=rid: self._fire(rid, f.type.__name__))
         except BaseException as e:       # no action of the specification raises from a request
-            exc = type(e).__name__
-        self.ev.append({"e": "req", "p": p, "k": k, "o": o, "id": rid, "sent": self._collect(p),
-                        "fired": [list(x) for x in self.fired], "exc": exc})
-        self._quiet()
+            ev["exc"] = type(e).__name__
+        self.stack.pop()
+        ev["sent"] += self._collect(p)
+        if not re:
+            self._quiet()
 
-    def deliver(self, p):
-        self.ops.append(["recv", p])
+    def deliver(self, p, follow=None):
+        """Deliver the oldest message in flight to p.  follow = (kind, option): if a request Deferred of p fires
+        during this delivery, its callback synchronously calls kind(option) on p."""
+        self.ops.append(["recv", p] + ([list(follow)] if follow else []))
         raw = self.q[p].pop(0)
         self.deliveries += 1
-        del self.fired[:]
-        exc = ""
+        ev = {"e": "recv", "p": p, "m": [CMD[raw[1]], self.idx[raw[2]]], "sent": [], "fired": [], "exc": ""}
+        self.ev.append(ev)
+        self.stack.append(ev)
+        self.follow = (p, follow) if follow else None
         try:
             self.ep[p].dataReceived(raw)
         except BaseException as e:
-            exc = type(e).__name__
-        self.ev.append({"e": "recv", "p": p, "m": [CMD[raw[1]], self.idx[raw[2]]], "sent": self._collect(p),
-                        "fired": [list(x) for x in self.fired], "exc": exc})
+            ev["exc"] = type(e).__name__
+        self.follow = None
+        del self.stack[:]
+        ev["sent"] += self._collect(p)
         self._quiet()
 
     def drain(self, rng=None):
@@ -169,7 +183,7 @@ class World:
             self.request(op[1], op[2], op[3])
         elif op[0] == "recv":
             if self.q[op[1]]:
-                self.deliver(op[1])
+                self.deliver(op[1], tuple(op[2]) if len(op) > 2 else None)
         elif op[0] == "drain":
             self.drain()
 
@@ -211,13 +225,15 @@ def run_ops(cfg, ops, codes=None):
     return w
 
 
-def explore(cfg, maxreq, max_traces=None):
+def explore(cfg, maxreq, max_traces=None, follow=True):
     """All interleavings of <= maxreq requests (any side/kind/option allowed by the premise) with
-    single-message deliveries, on the real objects, pruned by hashing the reached state."""
+    single-message deliveries, on the real objects, pruned by hashing the reached state.  With
+    follow=True every delivery during which a request Deferred fires is also explored with every
+    allowed follow-up request issued synchronously from that Deferred's callback."""
     reqs = allowed_requests(cfg)
     seen = set()
     traces = []
-    stats = {"states": 0, "edges": 0, "truncated": False}
+    stats = {"states": 0, "edges": 0, "truncated": False, "reentrant": 0}
 
     def rec(ops):
         if max_traces is not None and len(traces) >= max_traces:
@@ -231,12 +247,20 @@ def explore(cfg, maxreq, max_traces=None):
             stats["states"] += 1
             if w.nreq < maxreq:
                 nxt += reqs
-            nxt += [("recv", p) for p in (1, 2) if w.q[p]]
+            for p in (1, 2):
+                if w.q[p]:
+                    nxt.append(("recv", p))
+                    if follow and w.nreq < maxreq:
+                        w2 = run_ops(cfg, ops + [("recv", p)])
+                        if any(e["e"] == "recv" and e["fired"] for e in w2.ev[len(w.ev):]):
+                            nxt += [("recv", p, (r[2], r[3])) for r in reqs if r[1] == p]
         if not nxt:
             traces.append(w.trace())
             return
         for op in nxt:
             stats["edges"] += 1
+            if len(op) == 3 and op[0] == "recv":
+                stats["reentrant"] += 1
             rec(ops + [op])
 
     rec([])
@@ -259,7 +283,12 @@ def random_history(ctx, cfg, nreq):
         r = rng.random()
         sides = [p for p in (1, 2) if w.q[p]]
         if sides and r < 0.55:
-            w.deliver(rng.choice(sides))
+            p = rng.choice(sides)
+            fu = None
+            if rng.random() < 0.4:               # a follow-up issued from the callback, should a Deferred fire
+                op = rng.choice([q for q in reqs if q[1] == p] or [None])
+                fu = (op[2], op[3]) if op else None
+            w.deliver(p, fu)
         else:
             op = rng.choice(reqs)
             w.request(op[1], op[2], op[3])
@@ -428,7 +457,14 @@ def run(ctx):
     behs = behs[:ctx.pick(150, 3000)]
     drift = 0
     for b in behs:
-        ops = [["req", h["p"], h["k"], h["o"]] if h["e"] == "req" else ["recv", h["p"]] for h in b["hist"] if h["e"] != "quiet"]
+        ops = []
+        for h in b["hist"]:
+            if h["e"] == "req" and h["re"]:
+                ops[-1] = ["recv", ops[-1][1], [h["k"], h["o"]]]     # issued from the callback fired by that delivery
+            elif h["e"] == "req":
+                ops.append(["req", h["p"], h["k"], h["o"]])
+            elif h["e"] == "recv":
+                ops.append(["recv", h["p"]])
         w = run_ops(b["cfg"], ops)
         pred = [h for h in b["hist"] if h["e"] != "quiet"]
         real = [e for e in w.ev if e["e"] != "quiet"]
@@ -440,7 +476,10 @@ def run(ctx):
     ctx.extra["spec_behaviours_replayed"] = len(behs)
     ctx.extra["spec_behaviours_not_reproduced"] = drift
     ctx.note_traces(traces)
-    ctx.log("recorded %d real executions (%d events)" % (len(traces), sum(len(t["ev"]) for t in traces)))
+    nre = sum(1 for t in traces for e in t["ev"] if e["e"] == "req" and e["re"])
+    ctx.extra["reentrant_requests_executed"] = nre     # requests issued synchronously from a firing Deferred's callback
+    ctx.log("recorded %d real executions (%d events, %d requests issued from inside a Deferred callback)"
+            % (len(traces), sum(len(t["ev"]) for t in traces), nre))
     rej = ctx.validate("TelnetNegTrace", traces, shard_size=ctx.pick(1500, 4000))
     badidx = judge(ctx, traces, rej, "history")
     rejidx = {x.idx for x in rej}
